@@ -16,7 +16,7 @@ from ..tlc import validate_traces
 
 TIERS = {
     "quick": dict(variants=2, layouts=1, cap=1500, hv=400, stdlib=25),
-    "thorough": dict(variants=4, layouts=3, cap=60000, hv=100000, stdlib=400),
+    "thorough": dict(variants=3, layouts=2, cap=9000, hv=100000, stdlib=400),
 }
 
 
